@@ -50,13 +50,16 @@ func run(c *vf.Ctx) {
 			os.MkdirAll(dir, 0755)
 			outF := filepath.Join(dir, "out.json")
 			logP := filepath.Join(tmp, fmt.Sprintf("h%d.log", i))
-			_, code, ok := vf.RunWorkerOnce(false, "c25", []string{fmt.Sprint(i), fmt.Sprint(c.Seed), c.Tier, dir, outF}, nil, logP, 20*time.Minute)
+			_, code, ok := vf.RunWorkerOnce(false, "c25", []string{fmt.Sprint(i), fmt.Sprint(c.Seed), c.Tier, dir, outF}, nil, logP, time.Duration(c.N(7, 16))*time.Minute)
 			var h histOut
 			b, err := os.ReadFile(outF)
 			if err != nil || json.Unmarshal(b, &h) != nil || !ok || code != 0 {
 				h = histOut{Spec: genCase(c, i), SetupErr: fmt.Sprintf("worker exit=%d finished=%v err=%v", code, ok, err)}
 				if lb, e := os.ReadFile(logP); e == nil {
-					c.Logf("case %d worker log tail: %s", i, tailStr(string(lb), 1500))
+					keep := filepath.Join(vf.Out, "replays", fmt.Sprintf("C25-%d-case%d-worker.log", c.Seed, i))
+					os.MkdirAll(filepath.Dir(keep), 0755)
+					os.WriteFile(keep, []byte(tailStr(string(lb), 2<<20)), 0644)
+					c.Logf("case %d: worker did not deliver a history; log kept in %s", i, keep)
 				}
 			}
 			outs[i] = h
